@@ -376,8 +376,10 @@ class ConnectionState:
 
     async def receive_updates(self, cmd: IdleCommand, done: Event) \
             -> Iterable[UntaggedResponse]:
-        selected = await self.session.check_mailbox(
-            self.selected, wait_on=done)
+        selected = self.selected
+        # expunges that the previous command could not report are due now
+        wait_on = None if selected.messages.has_pending_remove else done
+        selected = await self.session.check_mailbox(selected, wait_on=wait_on)
         self._selected, untagged = selected.fork(cmd)
         return untagged
 
